@@ -32,6 +32,10 @@
 EXTENDS Naturals, Sequences, FiniteSets
 
 EnvContents == {"e1", "e2"}
+(* phase 2: gzip-compressed inputs ("decompressed if needed"): content id xz is the gzip of x; it is a  *)
+(* different content (other bytes: a change from x to xz is a content change) with the same expansion *)
+GzBase == [p1z |-> "p1", e1z |-> "e1"]
+Base(c) == IF c \in DOMAIN GzBase THEN GzBase[c] ELSE c
 LRan(s) == { s[i] : i \in DOMAIN s }
 
 (* ======================= property level ======================= *)
@@ -40,13 +44,13 @@ LRan(s) == { s[i] : i \in DOMAIN s }
 (* nothing is required of that file's output (the reloader either fails the apply - tolerance off -    *)
 (* or leaves the reference as it is - tolerance on).                                                   *)
 Unset == "unset"
-EnvOf(c, env) == IF c \in EnvContents THEN env ELSE ""
-Undefined(c, env) == c \in EnvContents /\ env = Unset
+EnvOf(c, env) == IF Base(c) \in EnvContents THEN env ELSE ""
+Undefined(c, env) == Base(c) \in EnvContents /\ env = Unset
 
 (* "output files equal to the inputs with environment variables substituted", and, because it is  *)
 (* an equality of the whole directory, "removes outputs whose inputs disappeared"                 *)
-ExpectedOut(ins, env) == [cfg |-> <<ins.cfg, EnvOf(ins.cfg, env)>>,
-                          dir |-> { <<x.n, x.c, EnvOf(x.c, env)>> : x \in LRan(ins.dir) }]
+ExpectedOut(ins, env) == [cfg |-> <<Base(ins.cfg), EnvOf(ins.cfg, env)>>,
+                          dir |-> { <<x.n, Base(x.c), EnvOf(x.c, env)>> : x \in LRan(ins.dir) }]
 ObservedOut(outs) == [cfg |-> <<outs.cfg.c, outs.cfg.e>>,
                       dir |-> { <<x.n, x.c, x.e>> : x \in LRan(outs.dir) }]
 
@@ -110,6 +114,21 @@ ApplyClauses(P, ins, env, tol, o) ==
     \cup (IF o.oks > 1 THEN {"one-successful-reload-per-apply"} ELSE {})
     \cup (IF settled THEN OutputClauses(ins, env, o.outs, "") ELSE {})
     \cup (IF o.oks >= 1 THEN OutputClauses(ins, env, o.atok, "-when-reload-requested") ELSE {})
+
+(* ---- phase 2: the real Watch loop (file-system events, watch interval, retry interval) ---- *)
+(* Observed at a point where the driver stopped changing anything and waited until the outputs and    *)
+(* the endpoint settled, or a generous deadline passed (stall detection, not a speed requirement):    *)
+(*   w = [changed (did the content change since the last settled point?), oks (successful reloads     *)
+(*        since the change), ins, env, outs, atok (outputs when the last 200 was answered)]            *)
+(* "After configuration files stop changing, the reloader eventually writes ... and triggers a        *)
+(* reload": by the deadline the outputs equal the expanded inputs, no orphan is left, and a changed   *)
+(* content was reloaded successfully with the outputs already in place.                               *)
+SettleClauses(w) ==
+    OutputClauses(w.ins, w.env, w.outs, "-eventually")
+    \cup (IF w.changed /\ w.oks = 0 THEN {"changed-content-eventually-reloaded"} ELSE {})
+    \cup (IF w.changed /\ w.oks >= 1 THEN OutputClauses(w.ins, w.env, w.atok, "-when-last-reloaded") ELSE {})
+(* ... "exactly when the content changed": an idle period after a settled point sees no reload request *)
+IdleClauses(w) == IF w.calls > 0 THEN {"no-reload-while-nothing-changes"} ELSE {}
 
 (* ======================= algorithm level ======================= *)
 (* Summary of what apply() decides (the step-wise model with the three hashes, lastCfgDirFiles and    *)
